@@ -227,6 +227,9 @@ func extGOROOT(fr *frame, args []value) value {
 
 // frameFile returns the file name the Caller stub reports for fr.
 func frameFile(fr *frame) string {
+	if fr.goexit {
+		return "/goroot/src/runtime/asm_amd64.s"
+	}
 	if fr.fileOverride != "" {
 		return fr.fileOverride
 	}
@@ -251,13 +254,22 @@ func extCaller(fr *frame, args []value) value {
 		f = f.caller
 	}
 	if f != nil {
+		if f.goexit {
+			return tuple{i.pcFor("runtime.goexit"), frameFile(f), 1, true}
+		}
 		pc := i.pcFor(f.fn.String())
 		return tuple{pc, frameFile(f), 1, true}
 	}
 	// count depth to see how far beyond we are
 	depth := 0
+	spawned := false
 	for g := fr.caller; g != nil; g = g.caller {
 		depth++
+		spawned = spawned || g.goexit
+	}
+	if spawned {
+		// a goroutine started with `go`: nothing above runtime.goexit
+		return tuple{uintptr(0), "", 0, false}
 	}
 	if skip == depth {
 		return tuple{i.pcFor("testing.tRunner"), "/goroot/src/testing/testing.go", 1, true}
@@ -294,11 +306,19 @@ func extCallers(fr *frame, args []value) value {
 	pcs := args[1].([]value)
 	var all []uintptr
 	all = append(all, i.pcForFile("runtime.Callers", "/goroot/src/runtime/extern.go"))
+	spawned := false
 	for f := fr.caller; f != nil; f = f.caller {
+		if f.goexit {
+			spawned = true
+			all = append(all, i.pcForFile("runtime.goexit", frameFile(f)))
+			continue
+		}
 		all = append(all, i.pcForFile(f.fn.String(), frameFile(f)))
 	}
-	all = append(all, i.pcForFile("testing.tRunner", "/goroot/src/testing/testing.go"))
-	all = append(all, i.pcForFile("runtime.goexit", "/goroot/src/runtime/asm_amd64.s"))
+	if !spawned {
+		all = append(all, i.pcForFile("testing.tRunner", "/goroot/src/testing/testing.go"))
+		all = append(all, i.pcForFile("runtime.goexit", "/goroot/src/runtime/asm_amd64.s"))
+	}
 	n := 0
 	for k := skip; k < len(all) && n < len(pcs); k++ {
 		pcs[n] = all[k]
